@@ -352,10 +352,37 @@ for i in range(1, 21):
     if pid not in CHECKS:
         PENDING[pid] = "check not built yet in this revision of /verif (planned, see DESIGN.md §6); no claim is made"
 
+# suites added in rounds 4b-5b (each after a seeded change the previous version missed); appended to the texts above
+LATER = {
+    "C01": "suites switch (if / else-if chains rewritten into switch statements in the rendered text) and incdec-values (pre / post ++ / -- on nine kinds of lvalue in nine value contexts, exhaustive).",
+    "C02": "suites operator-pairs-compact / random-trees-compact: the rendered programs with every optional space removed (same token sequence).",
+    "C03": "raw suite array-literals (effectful elements of array literals in declarations, assignments, member arrays, 2-D, loops).",
+    "C04": "raw suites indirect-stores / indirect-steps (stores and ++ / -- / += through pointers, references, self, ->, struct-array members at every boundary), const-parameters (incl. constructor parameters) and initialisers (several declarators, array literals, struct literals).",
+    "C05": "suite (c) access forms: &m[i][j] for every tuple around the dimensions (local / global / parameter, 3-D), arrays of structs, reads of 2-D string arrays; element paths long / short.",
+    "C06": "a third rendering in which callees return a string and are called through function-pointer variables.",
+    "C07": "suite struct-array-members (a struct with a struct-array member: element stores, whole copies by initialisation / assignment / result / by-value parameter, with and without reads between store and copy).",
+    "C08": "raw suites default-expressions, method-statics (static locals of methods of different impls / a plain function of the same name) and struct-parameters (by-value struct parameters with nested members named like the caller's variable, recursion).",
+    "C09": "raw suite const-structs (initialisation form x location x store route: member stores, methods writing through self, pointers to members / to the struct, pointer-to-const receivers, pointer-to-const members, whole-struct stores over const members).",
+    "C10": "executed families exec-error-path-* (every kind of run-time error a pointer-free program can raise), wide-struct-diamond-exec and exec-addresslike, under ASan+UBSan.",
+    "C11": "aggregates narrow (return expressions leaving the range of T at a narrow instantiation) and implstatic (statics in methods of a generic impl).",
+    "C12": "impl blocks rendered with void and value-returning self-calls before the impl static is used, a by-value interface parameter named like the caller's variable, and five fixed programs with primitive receivers (impl I for int).",
+    "C13": "travel modes gfn_explicit / gfn_inferred: the match stands inside a generic function.",
+    "C14": "suite C many-tasks: int / long / string / struct results awaited late and repeatedly after up to 300 further tasks, a task awaiting its long-finished child.",
+    "C15": "a third of the task loops end every iteration through continue; suite run-event-loop (tasks driven by run_event_loop(): every task's lines exactly once and in order, await after the child's end, all tasks finished, determinism) with CbProps/C15RunLoop.lean (the driver loop is round robin on tasks that neither spawn nor block) and a translator obligation on the loop body of SimpleEventLoop::run().",
+    "C16": "raw suite nested-interpolation ({expr} segments calling functions that themselves interpolate, recursion, struct members).",
+    "C17": "suite line-endings (CRLF files, stray \\r / \\v / \\f and blanks around directives).",
+    "C18": "negatives through the qualified form (m2.f for a function of another imported module or of the importing file).",
+    "C19": "vector histories over the whole int range and with Vector<long>, the operation sort(), and eight fixed programs at other element types (string, double, long in queues, string keys / values in maps).",
+    "C20": "arguments with effects (evaluated exactly once; qualified and unqualified calls), double results used as operands, int arguments to double parameters.",
+}
+
+
 def main():
     checks = []
     for pid in sorted(CHECKS):
-        c = CHECKS[pid]
+        c = dict(CHECKS[pid])
+        if pid in LATER:
+            c["text"] = c["text"].rstrip() + " Added in the last rounds: " + LATER[pid]
         checks.append({
             "property_id": pid,
             "quick_cmd": "python3 tools/check.py %s --tier quick" % pid,
